@@ -854,6 +854,22 @@ impl<'a> Runner<'a> {
         }
         if m != real {
             self.out.mismatch = Some((idx, evlog.join("; "), m, real));
+            return;
+        }
+        // the worker-side await registry (hooks Worker::verif_awaited / verif_awaiters_for_target, 0428746)
+        let wk = &self.sim.workers[i];
+        let real_reg = format!(
+            "awaited=({}) for=({})",
+            wk.verif_awaited().iter().map(|p| p.to_string()).collect::<Vec<_>>().join(" "),
+            wk.verif_awaiters_for_target()
+                .iter()
+                .map(|(t, aws)| format!("({t} ({}))", aws.iter().map(|a| a.to_string()).collect::<Vec<_>>().join(" ")))
+                .collect::<Vec<_>>()
+                .join(" ")
+        );
+        let m_reg = self.model.ask(&format!("(registry {i})"));
+        if m_reg != real_reg {
+            self.out.mismatch = Some((idx, evlog.join("; "), m_reg, real_reg));
         }
     }
 
@@ -1082,9 +1098,40 @@ fn case_json(case: &Case, o: &Outcome) -> serde_json::Value {
     })
 }
 
+
+/// Development probe (not part of the check): `QVERIF_PROBE="line1|||line2"` evaluates the lines one after
+/// the other in one simulated system (fair schedule first, then random schedules) and prints outcomes + faults.
+fn probe(spec: &str) {
+    let lines: Vec<&str> = spec.split("|||").collect();
+    let workers: usize = std::env::var("QVERIF_PROBE_WORKERS").ok().and_then(|s| s.parse().ok()).unwrap_or(1);
+    let quantum: Option<usize> = std::env::var("QVERIF_PROBE_Q").ok().and_then(|s| s.parse().ok());
+    let seeds: u64 = std::env::var("QVERIF_PROBE_SEEDS").ok().and_then(|s| s.parse().ok()).unwrap_or(0);
+    for seed in 0..=seeds {
+        let mut sim = Sim::new(workers, quantum, qverif::run::builtins(), true).with_repl(HashMap::new());
+        let mut r = Rng::for_case(0xC15F, seed);
+        let pol = Policy::random(&mut r, workers);
+        println!("--- schedule {} workers={workers} quantum={quantum:?}", if seed == 0 { "fair".to_string() } else { format!("random#{seed}") });
+        for l in &lines {
+            let out = match qverif::catch(std::panic::AssertUnwindSafe(|| {
+                if seed == 0 { eval_in(&mut sim, l, None, 20000) } else { eval_in(&mut sim, l, Some((&mut r, &pol)), 20000) }
+            })) {
+                Ok(o) => o.render(),
+                Err(p) => format!("PANIC in driver: {p}"),
+            };
+            println!("  line {l:?} => {out}   faults={:?}", sim.faults);
+        }
+        let procs: Vec<String> = sim.processes().iter().map(|(p, w, i)| format!("{p}@{w}:{:?}", i.status)).collect();
+        println!("  processes: {}", procs.join(" "));
+    }
+}
+
 fn main() {
     if std::env::var("QVERIF_LOUD").is_err() {
         qverif::quiet_panics();
+    }
+    if let Ok(spec) = std::env::var("QVERIF_PROBE") {
+        probe(&spec);
+        return;
     }
     let opts = Opts::parse();
     let mut ev = Ev::new("C15", &opts);
